@@ -39,7 +39,7 @@ TABLE = {
 
 
 def run(ctx):
-    for fn in (r1_preprocessing, r2_consume_emit, r3_transitions, r4_grouping):
+    for fn in (r1_preprocessing, r2_consume_emit, r3_transitions, r4_grouping, r5_group_buffers, r6_line_counter):
         ctx.rep.rule(fn, ctx)
 
 
@@ -369,6 +369,169 @@ def r4_grouping(ctx):
 
 
 # ---------------------------------------------------------------------------
+GROUP = 'xdoctest.parser.DoctestParser._group_labeled_lines'
+
+
+def _mentions(e, name):
+    return any(isinstance(x, ast.Name) and x.id == name for x in ast.walk(e))
+
+
+def r5_group_buffers(ctx):
+    """typestate of the accumulation buffers of _group_labeled_lines: every labelled line / group / block is placed
+    exactly once, in order, and a buffer that holds something is flushed before it is reset or overwritten"""
+    rep = ctx.rep
+    f = ctx.func(GROUP)
+    g = ctx.cfg(f)
+    rd = ctx.rd(f)
+    loops = [n for n in g.nodes if n.kind == 'for' and not n.dup and not any(fr.kind == 'loop' for fr in n.frames)]
+    need(len(loops) == 3, 'C13.R5: expected three top-level loops in _group_labeled_lines, found %d' % len(loops))
+    loops.sort(key=lambda n: n.lineno)
+    # -- loops 1 and 2: buffer `current`
+    for li, head in enumerate(loops[:2]):
+        entry, cut = graph.region_of_loop(g, head)
+        item = [x.id for x in ast.walk(head.ast.target) if isinstance(x, ast.Name)]
+        mid = item[1] if len(item) == 3 else item[0]
+        grows = [n for n in g.nodes if not n.dup and graph.in_loop_body(n, head.ast) and
+                 any(isinstance(c.func, ast.Attribute) and c.func.attr in ('append', 'extend') and is_name(c.func.value, 'current') and c.args and _mentions(c.args[0], mid) for c in node_calls(n))]
+        res = graph.count_events(entry, lambda x: any(x is y for y in grows), lambda x: x is head, efilter=graph.normal_only)
+        need(res, 'C13.R5: loop %d has no back edge' % (li + 1))
+        (_, lo, hi, wlo, whi) = next(iter(res.values()))
+        rep.ob('C13.R5', ctx.loc(f, head.ast), 'pass %d: the current item enters the buffer once' % (li + 1), (lo, hi) == (1, 1),
+               'every %s is added to the open group exactly once' % ('labelled line' if li == 0 else 'group') if (lo, hi) == (1, 1) else
+               'an item is added %d..%d times: lines are %s' % (lo, hi, 'lost' if lo == 0 else 'duplicated'),
+               witness=None if (lo, hi) == (1, 1) else graph.fmt_path(wlo if lo != 1 else whi, f.module.relpath), anchor=GROUP)
+        resets = [d.node for d in rd.defs_of('current') if graph.in_loop_body(d.node, head.ast) and isinstance(d.value, ast.List) and not d.value.elts]
+        flushes = [n for n in g.nodes if not n.dup and any(isinstance(c.func, ast.Attribute) and c.func.attr == 'append' and c.args and _mentions(c.args[0], 'current') and not is_name(c.func.value, 'current') for c in node_calls(n))]
+        empty_guard = [n for n in g.nodes if n.kind == 'branch' and n.attrs['test'].kind == 'test' and graph.in_loop_body(n, head.ast) and
+                       any(isinstance(fa.expr, ast.Compare) and is_name(fa.expr.left, 'state') and isinstance(fa.expr.ops[0], ast.Is) and fa.polarity is True for fa in graph.facts_of(n.attrs['test'].ast, n.attrs['polarity']))]
+        for r in resets:
+            wit = graph.must_pass([entry], lambda x, r=r: x is r, through=[fl for fl in flushes if graph.in_loop_body(fl, head.ast)] + empty_guard, efilter=graph.normal_only)
+            rep.ob('C13.R5', ctx.loc(f, r.ast), 'pass %d: %s' % (li + 1, ctx.src(r.ast)), wit is None,
+                   'the open group is flushed before the buffer is reset (or nothing was open yet)' if wit is None else 'the buffer can be reset while it holds lines that were never flushed',
+                   witness=None if wit is None else graph.fmt_path(wit, f.module.relpath), anchor=GROUP)
+        # the reset comes before this iteration's append (the item opens the new group)
+        for r in resets:
+            late = graph.path([y for gr in grows for y in gr.nsucc()], lambda x, r=r: x is r, efilter=graph.normal_only, stop=[head])
+            rep.ob('C13.R5', ctx.loc(f, r.ast), 'pass %d: reset precedes the append of the item' % (li + 1), late is None,
+                   'order kept' if late is None else 'the item is appended and then discarded by the reset', nontrivial=False, anchor=GROUP)
+        # final flush after the loop
+        done = [b for b in head.nsucc() if b.kind == 'branch' and b.attrs['polarity'] == 'done']
+        nxt = loops[li + 1]
+        post = [fl for fl in flushes if not graph.in_loop_body(fl, head.ast)]
+        truthy = [n for n in g.nodes if n.kind == 'branch' and n.attrs['test'].kind == 'test' and is_name(n.attrs['test'].ast, 'current') and n.attrs['polarity'] is False]
+        wit = graph.must_pass(done, lambda x: x.kind == 'for_init' and x.stmt is nxt.ast, through=post + truthy, efilter=graph.normal_only)
+        rep.ob('C13.R5', ctx.loc(f, head.ast), 'pass %d: last open group flushed after the loop' % (li + 1), wit is None and bool(post),
+               'a non-empty buffer is flushed once the input is exhausted' if wit is None and post else 'the last group of a docstring is dropped', anchor=GROUP)
+    # -- loop 3: pending source block
+    head = loops[2]
+    entry, cut = graph.region_of_loop(g, head)
+    tnames = [x.id for x in ast.walk(head.ast.target) if isinstance(x, ast.Name)]
+    need(len(tnames) == 2, 'C13.R5: unrecognised target of the assembly loop')
+    st, grp = tnames
+    blockdefs = [d for d in rd.defs if graph.in_loop_body(d.node, head.ast) and isinstance(d.value, ast.ListComp) and _mentions(d.value, grp)]
+    need(len(blockdefs) == 1, 'C13.R5: block = [t[1] for t in group] not found')
+    block = blockdefs[0].name
+    PEND = 'prev_source'
+    place_text = [n for n in g.nodes if not n.dup and graph.in_loop_body(n, head.ast) and any(isinstance(c.func, ast.Attribute) and c.func.attr == 'append' and c.args and is_name(c.args[0], block) for c in node_calls(n))]
+    place_want = [n for n in g.nodes if not n.dup and graph.in_loop_body(n, head.ast) and any(isinstance(c.func, ast.Attribute) and c.func.attr == 'append' and c.args and isinstance(c.args[0], ast.Tuple) and
+                                                                                             len(c.args[0].elts) == 2 and is_name(c.args[0].elts[0], PEND) and is_name(c.args[0].elts[1], block) for c in node_calls(n))]
+    place_src = [d.node for d in rd.defs_of(PEND) if graph.in_loop_body(d.node, head.ast) and is_name(d.value, block)]
+    flush = [n for n in g.nodes if not n.dup and any(isinstance(c.func, ast.Attribute) and c.func.attr == 'append' and c.args and isinstance(c.args[0], ast.Tuple) and len(c.args[0].elts) == 2 and
+                                                     is_name(c.args[0].elts[0], PEND) and not is_name(c.args[0].elts[1], block) for c in node_calls(n))]
+    states = {'TEXT': 'text', 'WANT': 'want', 'DSRC': 'dsrc', 'DCNT': 'dcnt'}
+    for cur in ('text', 'want', 'dsrc', 'dcnt'):
+        def ef(a, b, kind, tok, cur=cur):
+            if kind != 'n':
+                return False
+            if b.kind == 'branch' and b.attrs['test'].kind == 'test':
+                tv = _state_truth(b.attrs['test'].ast, st, cur, states)
+                if tv is not None and tv != b.attrs['polarity']:
+                    return False
+            return True
+        allp = place_text + place_want + place_src
+        res = graph.count_events(entry, lambda x: any(x is y for y in allp), lambda x: x is head, efilter=ef)
+        need(res, 'C13.R5: assembly loop has no back edge for state %s' % cur)
+        (_, lo, hi, wlo, whi) = next(iter(res.values()))
+        rep.ob('C13.R5', ctx.loc(f, head.ast), 'assembly: a %s block is placed once' % cur, (lo, hi) == (1, 1),
+               'exactly one of {text part, (source, want) chunk, pending source} receives the block' if (lo, hi) == (1, 1) else 'a %s block is placed %d..%d times' % (cur, lo, hi),
+               witness=None if (lo, hi) == (1, 1) else graph.fmt_path(wlo if lo != 1 else whi, f.module.relpath), anchor=GROUP)
+    none_guard = [n for n in g.nodes if n.kind == 'branch' and n.attrs['test'].kind == 'test' and graph.in_loop_body(n, head.ast) and
+                  any(isinstance(fa.expr, ast.Compare) and is_name(fa.expr.left, PEND) and isinstance(fa.expr.ops[0], ast.Is) and fa.polarity is True for fa in graph.facts_of(n.attrs['test'].ast, n.attrs['polarity']))]
+    for p_ in place_src + place_text:
+        wit = graph.must_pass([entry], lambda x, p_=p_: x is p_, through=[fl for fl in flush if graph.in_loop_body(fl, head.ast)] + none_guard, efilter=graph.normal_only)
+        rep.ob('C13.R5', ctx.loc(f, p_.ast), 'assembly: pending source flushed before %s' % ctx.src(p_.ast), wit is None,
+               'a pending source block is emitted (with an empty want) before it is overwritten / before following text' if wit is None else
+               'a pending source block can be overwritten or overtaken: doctest source is lost or re-ordered',
+               witness=None if wit is None else graph.fmt_path(wit, f.module.relpath), anchor=GROUP)
+    # the want chunk consumes the pending block
+    for p_ in place_want:
+        resets = [d.node for d in rd.defs_of(PEND) if isinstance(d.value, ast.Constant) and d.value.value is None and graph.in_loop_body(d.node, head.ast)]
+        wit = graph.must_pass(p_.nsucc(), lambda x: x is head, through=resets, efilter=graph.normal_only)
+        rep.ob('C13.R5', ctx.loc(f, p_.ast), 'assembly: (source, want) consumes the pending source', wit is None,
+               'the pending source is cleared after it was paired with its want' if wit is None else 'a source block paired with a want stays pending and is emitted a second time', anchor=GROUP)
+    for fl in [x for x in flush if graph.in_loop_body(x, head.ast)]:
+        resets = [d.node for d in rd.defs_of(PEND) if graph.in_loop_body(d.node, head.ast)]
+        wit = graph.must_pass(fl.nsucc(), lambda x: x is head, through=resets, efilter=graph.normal_only)
+        rep.ob('C13.R5', ctx.loc(f, fl.ast), 'assembly: flushed source is not flushed again', wit is None,
+               'after a flush the pending variable is reassigned in the same iteration' if wit is None else 'a flushed source block stays pending', nontrivial=False, anchor=GROUP)
+    done = [b for b in head.nsucc() if b.kind == 'branch' and b.attrs['polarity'] == 'done']
+    post = [fl for fl in flush if not graph.in_loop_body(fl, head.ast)]
+    falsy = [n for n in g.nodes if n.kind == 'branch' and n.attrs['test'].kind == 'test' and not graph.in_loop_body(n, head.ast) and
+             ((is_name(n.attrs['test'].ast, PEND) and n.attrs['polarity'] is False) or
+              any(isinstance(fa.expr, ast.Compare) and is_name(fa.expr.left, PEND) and isinstance(fa.expr.ops[0], ast.Is) and fa.polarity is True for fa in graph.facts_of(n.attrs['test'].ast, n.attrs['polarity'])))]
+    wit = graph.must_pass(done, lambda x: x is g.exit, through=post + falsy, efilter=graph.normal_only)
+    rep.ob('C13.R5', ctx.loc(f, head.ast), 'assembly: trailing source flushed after the loop', wit is None and bool(post),
+           'source at the end of the docstring becomes a chunk with an empty want' if wit is None and post else 'source at the end of a docstring is dropped', anchor=GROUP)
+
+
+def r6_line_counter(ctx):
+    """the running line counter of _package_groups advances by exactly the number of lines of each group"""
+    rep = ctx.rep
+    f = ctx.func(PKG)
+    g = ctx.cfg(f)
+    rd = ctx.rd(f)
+    heads = [n for n in g.nodes if n.kind == 'for' and not n.dup and not any(fr.kind == 'loop' for fr in n.frames)]
+    head = heads[0]
+    chunk = head.ast.target.id if isinstance(head.ast.target, ast.Name) else None
+    need(chunk, 'C13.R6: loop target not a name')
+    entry, cut = graph.region_of_loop(g, head)
+    dom = ctx.dom(g, entry, cut)
+    # the counter: local passed to _package_chunk and initialised to 0
+    pc = [(n, c) for n in g.nodes if n.kind == 'for_init' and isinstance(n.ast, ast.Call) for c in [n.ast] if ctx.res.resolve_call(f, c)[0] == 'repo' and ctx.res.resolve_call(f, c)[1][0].qualname == CHUNK]
+    need(pc, 'C13.R6: call of the chunk packager not found')
+    cn, cc = pc[0]
+    cnt = cc.args[2] if len(cc.args) > 2 else None
+    need(isinstance(cnt, ast.Name), 'C13.R6: line counter argument not a local')
+    counter = cnt.id
+    init = [d for d in rd.defs_of(counter) if isinstance(d.value, ast.Constant) and d.value.value == 0 and not d.node.frames]
+    rep.ob('C13.R6', ctx.loc(f, init[0].node.ast if init else f.node), '%s = 0' % counter, bool(init), 'the first group starts at line 0 of the (de-indented) docstring' if init else 'the line counter does not start at 0', nontrivial=False, anchor=PKG)
+    incs = [n for n in g.nodes if not n.dup and n.kind == 'stmt' and isinstance(n.ast, ast.AugAssign) and is_name(n.ast.target, counter) and graph.in_loop_body(n, head.ast)]
+    res = graph.count_events(entry, lambda x: any(x is y for y in incs), lambda x: x is head, efilter=graph.normal_only)
+    need(res, 'C13.R6: no back edge')
+    (_, lo, hi, wlo, whi) = next(iter(res.values()))
+    rep.ob('C13.R6', ctx.loc(f, head.ast), 'one counter increment per group', (lo, hi) == (1, 1),
+           'exactly one increment on every path through an iteration' if (lo, hi) == (1, 1) else 'the counter is advanced %d..%d times per group' % (lo, hi), anchor=PKG)
+    for n in incs:
+        v = n.ast.value
+        facts = graph.guard_facts(dom, n)
+        is_tuple = any(isinstance(fa.expr, ast.Call) and is_name(fa.expr.func, 'isinstance') and fa.polarity is True for fa in facts)
+        if is_tuple:
+            # (slines, wlines) unpacked from the chunk: increment = len(slines) + len(wlines)
+            un = [d for d in rd.defs if d.kind == 'unpack' and isinstance(d.base, ast.Name) and d.base.id == chunk and graph.in_loop_body(d.node, head.ast)]
+            names = sorted(d.name for d in un)
+            lens = sorted(x.args[0].id for x in ast.walk(v) if isinstance(x, ast.Call) and is_name(x.func, 'len') and x.args and isinstance(x.args[0], ast.Name))
+            ok = isinstance(n.ast.op, ast.Add) and isinstance(v, ast.BinOp) and isinstance(v.op, ast.Add) and lens == names and len(names) == 2 and \
+                all(isinstance(s_, ast.Call) for s_ in (v.left, v.right))
+            rep.ob('C13.R6', ctx.loc(f, n.ast), ctx.src(n.ast), ok, 'source + want lines of the chunk' if ok else 'the increment for a chunk is not len(source lines) + len(want lines)', anchor=PKG)
+            # and the packager is called with the counter *before* the increment
+            before = graph.path(n.nsucc(), lambda x: x is cn, efilter=graph.normal_only, stop=[head]) is None
+            rep.ob('C13.R6', ctx.loc(f, cc), 'chunk packaged with the counter before its increment', before, 'offset of the chunk is the number of lines before it' if before else 'the chunk is packaged with an already advanced counter', anchor=PKG)
+        else:
+            ok = isinstance(n.ast.op, ast.Add) and isinstance(v, ast.Call) and is_name(v.func, 'len') and v.args and is_name(v.args[0], chunk)
+            rep.ob('C13.R6', ctx.loc(f, n.ast), ctx.src(n.ast), ok, 'number of lines of the text group' if ok else 'the increment for a text group is not len(group)', anchor=PKG)
+
+
+# ---------------------------------------------------------------------------
 from ..selftest import fire, silent      # noqa: E402
 
 PA = 'xdoctest/parser.py'
@@ -388,6 +551,16 @@ VARIANTS = [
                                                   "                elif line_indent < state_indent:\n                    curr_state = TEXT\n                elif _hasprefix(line.strip(), ('...',)):\n                    curr_state = DCNT\n                else:\n                    curr_state = WANT\n")),
     fire('text-group-dropped', 'C13.R4', (PA, "                text_part = '\\n'.join(chunk)\n                yield text_part\n", "                text_part = '\\n'.join(chunk)\n                if text_part.strip():\n                    yield text_part\n")),
     fire('final-part-conditional', 'C13.R4', (PA, "            print('<YIELD CHUNK>')\n        yield example\n", "            print('<YIELD CHUNK>')\n        if example.exec_lines:\n            yield example\n")),
+    fire('group-reset-without-flush', 'C13.R5', (PA, "                    if state is not None:\n                        groups.append((state, current))\n                    state = mid[0]\n", "                    state = mid[0]\n")),
+    fire('last-group-dropped', 'C13.R5', (PA, "        if current:\n            groups.append((state, current))\n\n        if global_state", "        if global_state")),
+    fire('merged-group-lines-lost', 'C13.R5', (PA, "                state = mid[0]\n                current = []\n                current.extend(mid[1])\n", "                state = mid[0]\n                current = []\n")),
+    fire('pending-source-overwritten', 'C13.R5', (PA, "                if prev_source is not None:\n                    # accept a source block without a want block\n                    grouped_lines.append((prev_source, ''))\n                    prev_source = None\n                # need to check if there is a want after us\n", "                # need to check if there is a want after us\n")),
+    fire('text-overtakes-pending-source', 'C13.R5', (PA, "                if prev_source is not None:\n                    # accept a source block without a want block\n                    grouped_lines.append((prev_source, ''))\n                    prev_source = None\n                # accept the text\n", "                # accept the text\n")),
+    fire('want-does-not-consume-source', 'C13.R5', (PA, "                grouped_lines.append((prev_source, block))\n                prev_source = None\n", "                grouped_lines.append((prev_source, block))\n")),
+    fire('trailing-source-dropped', 'C13.R5', (PA, "        if prev_source:\n            grouped_lines.append((prev_source, ''))\n", "")),
+    fire('counter-ignores-want-lines', 'C13.R6', (PA, "                lineno += len(slines) + len(wlines)\n", "                lineno += len(slines)\n")),
+    fire('counter-not-advanced-for-text', 'C13.R6', (PA, "                yield text_part\n                lineno += len(chunk)\n", "                yield text_part\n")),
+    fire('counter-advanced-before-packaging', 'C13.R6', (PA, "                for example in self._package_chunk(slines, wlines, lineno):\n                    yield example\n                lineno += len(slines) + len(wlines)\n", "                lineno += len(slines) + len(wlines)\n                for example in self._package_chunk(slines, wlines, lineno):\n                    yield example\n")),
     silent('want-text-appends-merged', (PA, "            elif curr_state == WANT:\n                labeled_lines.append((curr_state, line))\n            elif curr_state == TEXT:\n                labeled_lines.append((curr_state, line))\n",
                                             "            elif curr_state in {WANT, TEXT}:\n                labeled_lines.append((curr_state, line))\n"),
            note='exhaustiveness of the dispatch over curr_state is the state machine invariant; see below'),
